@@ -16,7 +16,7 @@ EXTENDS Big, Sequences
 
 RNum(j) == "s" \in DOMAIN j
 RFx(j) == FxFromJson(j)
-RTOL == [s |-> 1, m |-> <<0, 0, 0, 10>>]        \* 1e-11
+RTOL == [s |-> 1, m |-> <<0, 0, 0, 1000>>]      \* 1e-9: rounding residue of running sums after a drop of the price scale (quotient rule of DESIGN section 4)
 One == [s |-> 1, m |-> <<0, 0, 0, 0, 0, 0, 1>>]
 In01(j) == RNum(j) /\ FxGe(RFx(j), FxNeg(RTOL)) /\ FxLe(RFx(j), FxAdd(One, RTOL))
 In11(j) == RNum(j) /\ FxGe(RFx(j), FxNeg(FxAdd(One, RTOL))) /\ FxLe(RFx(j), FxAdd(One, RTOL))
